@@ -3,7 +3,7 @@ use crate::common::Rng;
 
 pub const CRITICAL: &[char] = &[
     '&', '<', '>', '\'', '"', ';', '#', 'x', ']', '[', '\t', '\n', '\r', ' ', 'a', 'b', '0', '9',
-    'A', 'f', '+', '-', '!', '?', '=', '/', ':',
+    'A', 'f', '+', '-', '!', '?', '=', '/', ':', '{', '}', '%', '$', '\\', '.', ',',
 ];
 pub const WIDE: &[char] = &[
     'é', '\u{a0}', '\u{2028}', '\u{3000}', '\u{fffd}', '\u{fffe}', '\u{1f600}', '\u{10ffff}',
